@@ -13,6 +13,8 @@ type Profile struct {
 	Control  bool // break/continue/return at every position, truthiness classes (C08)
 	Errors   bool // try/catch/finally, throw, runtime errors, defer (C09)
 	IncDec   bool // x++ / x += e statements (C14)
+	Cross    bool // by-construction scope patterns: every binder form x every block form on a fresh name, own-name rebinding, closure factories called several times (C04)
+	HostChan bool // the probe environment has gch(v) (a buffered channel holding v): `x = <-gch(v)` binder forms
 	MaxDepth int
 	MaxStmts int // statements per block
 }
@@ -170,6 +172,11 @@ func (g *G) stmt(c *gctx) []*N {
 		add(b2i(P.Scopes, 7, 5), func() []*N { return g.funcDef(c) })
 		add(b2i(P.Scopes, 3, 0), func() []*N { return g.moduleStmt(c) })
 		add(b2i(P.Scopes || P.Control, 2, 1), func() []*N { return g.recursion(c) })
+		if P.Cross {
+			add(7, func() []*N { return g.scopeCross(c) })
+			add(2, func() []*N { return g.selfName(c) })
+			add(3, func() []*N { return g.closureFactory(c) })
+		}
 	}
 	if len(c.fns) > 0 {
 		add(8, func() []*N { return []*N{g.callStmt(c)} })
@@ -747,4 +754,230 @@ func (g *G) moduleStmt(c *gctx) []*N {
 		{K: "expr", Ns: []*N{P1(g.id(), &N{K: "mem", Ns: []*N{Id(name)}, S: member})}},
 		{K: "expr", Ns: []*N{P1(g.id(), Id(member))}},
 	}
+}
+
+// ---------- by-construction scope patterns (Profile.Cross) ----------
+
+// binder returns statements that bind the fresh name z in the block they are put in, using one
+// of the binding forms of the language; the second result is a name bound alongside (or "").
+func (g *G) binder(c *gctx, z string) ([]*N, string) {
+	hi := 8
+	if g.prof.HostChan {
+		hi = 10
+	}
+	switch g.n(0, hi, "binder") {
+	case 0:
+		g.feat("binder_let")
+		return []*N{{K: "let", Ps: []string{z}, Ns: []*N{g.val()}}}, ""
+	case 1:
+		g.feat("binder_var")
+		return []*N{{K: "var", Ps: []string{z}, Ns: []*N{g.val()}}}, ""
+	case 2:
+		g.feat("binder_multi_let")
+		return []*N{{K: "let", Ps: []string{z, z + "b"}, Ns: []*N{g.val(), g.val()}}}, z + "b"
+	case 3:
+		g.feat("binder_map_lookup_two_values")
+		key := rapid.SampledFrom([]string{"k", "missing"}).Draw(g.t, "lookupkey")
+		return []*N{{K: "letmap", Ps: []string{z, z + "b"}, Ns: []*N{{K: "map", Ns: []*N{Str("k"), g.val()}}, Str(key)}}}, z + "b"
+	case 4:
+		g.feat("binder_func_statement")
+		return []*N{{K: "expr", Ns: []*N{{K: "fn", S: z, Ss: [][]*N{{{K: "ret", Ns: []*N{g.val()}}}}}}}}, ""
+	case 5:
+		g.feat("binder_forin_variable")
+		return []*N{{K: "forin", Ps: []string{z}, Ns: []*N{{K: "list", Ns: []*N{g.val()}}}, Ss: [][]*N{{{K: "expr", Ns: []*N{P1(g.id(), Id(z))}}}}}}, ""
+	case 6:
+		g.feat("binder_catch_variable")
+		return []*N{{K: "try", S: z, Ss: [][]*N{{{K: "throw", Ns: []*N{Str("E")}}}, {{K: "expr", Ns: []*N{P1(g.id(), Id(z))}}}}}}, ""
+	case 7:
+		g.feat("binder_module")
+		return []*N{{K: "module", S: z, Ss: [][]*N{{{K: "var", Ps: []string{"mm"}, Ns: []*N{g.val()}}}}}}, ""
+	case 8:
+		g.feat("binder_var_two")
+		return []*N{{K: "var", Ps: []string{z, z + "b"}, Ns: []*N{g.val(), g.val()}}}, z + "b"
+	case 9:
+		g.feat("binder_chan_receive")
+		return []*N{{K: "letchan", Ps: []string{z}, Ns: []*N{g.val()}}}, ""
+	default:
+		g.feat("binder_chan_receive_two_values")
+		return []*N{{K: "letchan", Ps: []string{z, z + "b"}, Ns: []*N{g.val()}}}, z + "b"
+	}
+}
+
+// probeName observes whether a name is bound (and its value when it is an int).
+func (g *G) probeName(nm string) *N {
+	return &N{K: "try", Ss: [][]*N{
+		{{K: "expr", Ns: []*N{P1(g.id(), &N{K: "coal", Ns: []*N{Bin("+", Id(nm), Int(0)), Str("bound")}})}}},
+		{{K: "expr", Ns: []*N{P1(g.id(), Str("undef"))}}},
+	}}
+}
+
+// existOnly observes only whether a name is bound, whatever its value.
+func (g *G) existOnly(nm string) *N {
+	return &N{K: "try", Ss: [][]*N{
+		{{K: "expr", Ns: []*N{Id(nm)}}, {K: "expr", Ns: []*N{P1(g.id(), Str("bound"))}}},
+		{{K: "expr", Ns: []*N{P1(g.id(), Str("undef"))}}},
+	}}
+}
+
+// scopeCross binds a fresh name with one binder form inside one block form, with nothing else in
+// that block but probes, and observes the name inside the block, after it, and after the
+// enclosing statement.
+func (g *G) scopeCross(c *gctx) []*N {
+	z := fmt.Sprintf("z%d", g.id())
+	bind, second := g.binder(c, z)
+	inner := append([]*N{}, bind...)
+	if g.chance(50) {
+		inner = append(inner, g.existOnly(z))
+	}
+	if g.chance(30) {
+		inner = append([]*N{{K: "expr", Ns: []*N{P1(g.id(), Id(g.name()))}}}, inner...)
+	}
+	after := []*N{g.existOnly(z)}
+	if second != "" {
+		after = append(after, g.existOnly(second))
+	}
+	yes := func() *N {
+		if g.chance(70) {
+			return &N{K: "true"}
+		}
+		return g.cond(c, 1)
+	}
+	var out []*N
+	switch g.n(0, 12, "blockform") {
+	case 0:
+		g.feat("cross_if_then")
+		out = []*N{{K: "if", Ns: []*N{yes()}, Ss: [][]*N{inner}}}
+	case 1:
+		g.feat("cross_else")
+		out = []*N{{K: "if", Ns: []*N{{K: "false"}}, Ss: [][]*N{{}, inner}, B: true}}
+	case 2:
+		g.feat("cross_else_if")
+		out = []*N{{K: "if", Ns: []*N{{K: "false"}, yes()}, Ss: [][]*N{{}, inner}}}
+	case 3:
+		g.feat("cross_forin_body")
+		out = []*N{{K: "forin", Ps: []string{"it"}, Ns: []*N{{K: "list", Ns: []*N{g.val(), g.val()}}}, Ss: [][]*N{inner}}}
+	case 4:
+		g.feat("cross_loop_body")
+		ctr := g.ctr()
+		body := append([]*N{{K: "let", Ps: []string{ctr}, Ns: []*N{Bin("+", Id(ctr), Int(1))}}}, inner...)
+		out = []*N{{K: "var", Ps: []string{ctr}, Ns: []*N{Int(0)}}, {K: "loop", Ns: []*N{Bin("<", Id(ctr), Int(2))}, Ss: [][]*N{body}}}
+	case 5:
+		g.feat("cross_cfor_body")
+		ctr := g.ctr()
+		out = []*N{{K: "cfor", Ns: []*N{{K: "let", Ps: []string{ctr}, Ns: []*N{Int(0)}}, Bin("<", Id(ctr), Int(2)), {K: "inc", S: ctr, I: 1}}, Ss: [][]*N{inner}}}
+	case 6:
+		g.feat("cross_switch_case")
+		out = []*N{{K: "switch", Ns: []*N{Int(1), {K: "case", Ns: []*N{Int(1)}, Ss: [][]*N{inner}}}}}
+	case 7:
+		g.feat("cross_switch_default")
+		out = []*N{{K: "switch", Ns: []*N{Int(1), {K: "case", Ns: []*N{Int(2)}, Ss: [][]*N{{}}}, {K: "default", Ss: [][]*N{inner}}}}}
+	case 8:
+		g.feat("cross_try_body")
+		out = []*N{{K: "try", Ss: [][]*N{inner, {}}}}
+	case 9:
+		g.feat("cross_catch_body")
+		out = []*N{{K: "try", Ss: [][]*N{{{K: "throw", Ns: []*N{Str("E")}}}, inner}}}
+	case 10:
+		g.feat("cross_finally_body")
+		out = []*N{{K: "try", B: true, Ss: [][]*N{{}, {}, inner}}}
+	case 11:
+		g.feat("cross_function_body")
+		out = []*N{{K: "expr", Ns: []*N{{K: "acall", Ns: []*N{{K: "fn", Ss: [][]*N{append(inner, &N{K: "ret"})}}}}}}}
+	default:
+		g.feat("cross_module_body")
+		g.nextMod++
+		out = []*N{{K: "module", S: fmt.Sprintf("m%d", g.nextMod), Ss: [][]*N{inner}}}
+	}
+	g.feat("scope_cross")
+	return append(out, after...)
+}
+
+// selfName: a named function whose body rebinds, or calls through, its own name.
+func (g *G) selfName(c *gctx) []*N {
+	g.nextFn++
+	name := fmt.Sprintf("s%d", g.nextFn)
+	g.feat("self_name")
+	if g.chance(50) {
+		// the body assigns to the function's own name: the binding made by the function statement changes
+		body := []*N{{K: "let", Ps: []string{name}, Ns: []*N{g.val()}}, {K: "ret", Ns: []*N{g.val()}}}
+		return []*N{
+			{K: "expr", Ns: []*N{{K: "fn", S: name, Ss: [][]*N{body}}}},
+			{K: "expr", Ns: []*N{P1(g.id(), &N{K: "call", S: name})}},
+			g.probeName(name),
+		}
+	}
+	// the name is rebound outside while the old function value is still reachable: the recursive
+	// call inside the old value goes to whatever the name is bound to now
+	keep := name + "k"
+	body := []*N{
+		{K: "if", Ns: []*N{Bin("<=", Id("n"), Int(0))}, Ss: [][]*N{{{K: "ret", Ns: []*N{g.val()}}}}},
+		{K: "ret", Ns: []*N{Bin("+", &N{K: "call", S: name, Ns: []*N{Bin("-", Id("n"), Int(1))}}, Int(1))}},
+	}
+	other := []*N{{K: "ret", Ns: []*N{Bin("+", Id("n"), Int(1000))}}}
+	return []*N{
+		{K: "expr", Ns: []*N{{K: "fn", S: name, Ps: []string{"n"}, Ss: [][]*N{body}}}},
+		{K: "let", Ps: []string{keep}, Ns: []*N{Id(name)}},
+		{K: "expr", Ns: []*N{P1(g.id(), &N{K: "call", S: keep, Ns: []*N{Int(2)}})}},
+		{K: "let", Ps: []string{name}, Ns: []*N{{K: "fn", Ps: []string{"n"}, Ss: [][]*N{other}}}},
+		{K: "expr", Ns: []*N{P1(g.id(), &N{K: "call", S: keep, Ns: []*N{Int(2)}})}},
+	}
+}
+
+// closureFactory: a function that creates a closure over its parameter and a local, inside a
+// nested block or at the top of its body, is called several times; the closures are called
+// afterwards, interleaved with further calls of the factory.
+func (g *G) closureFactory(c *gctx) []*N {
+	g.nextFn++
+	name := fmt.Sprintf("mk%d", g.nextFn)
+	clo := &N{K: "fn", Ps: []string{"d"}, Ss: [][]*N{{
+		{K: "let", Ps: []string{"loc"}, Ns: []*N{Bin("+", Id("loc"), Id("d"))}},
+		{K: "ret", Ns: []*N{Bin("+", Bin("*", Id("loc"), Int(100)), Id("a"))}},
+	}}}
+	mk := func(s *N) []*N {
+		switch g.n(0, 5, "factorynest") {
+		case 0:
+			g.feat("closure_made_at_body_top")
+			return []*N{s}
+		case 1:
+			return []*N{{K: "if", Ns: []*N{{K: "true"}}, Ss: [][]*N{{s}}}}
+		case 2:
+			return []*N{{K: "forin", Ps: []string{"it"}, Ns: []*N{{K: "list", Ns: []*N{Int(1)}}}, Ss: [][]*N{{s}}}}
+		case 3:
+			return []*N{{K: "switch", Ns: []*N{Int(1), {K: "case", Ns: []*N{Int(1)}, Ss: [][]*N{{s}}}}}}
+		case 4:
+			return []*N{{K: "if", Ns: []*N{{K: "false"}}, Ss: [][]*N{{}, {s}}, B: true}}
+		default:
+			return []*N{{K: "try", Ss: [][]*N{{{K: "throw", Ns: []*N{Str("E")}}}, {s}}}}
+		}
+	}
+	var body []*N
+	body = append(body, &N{K: "var", Ps: []string{"loc"}, Ns: []*N{Bin("*", Id("a"), Int(2))}})
+	hold := name + "h"
+	stored := g.chance(40)
+	if stored {
+		// the closure escapes through a variable of the enclosing scope
+		body = append(body, mk(&N{K: "let", Ps: []string{hold}, Ns: []*N{clo}})...)
+		body = append(body, &N{K: "ret", Ns: []*N{Id(hold)}})
+	} else {
+		body = append(body, mk(&N{K: "ret", Ns: []*N{clo}})...)
+		body = append(body, &N{K: "ret", Ns: []*N{{K: "nil"}}})
+	}
+	out := []*N{}
+	if stored {
+		out = append(out, &N{K: "let", Ps: []string{hold}, Ns: []*N{{K: "nil"}}})
+	}
+	out = append(out, &N{K: "expr", Ns: []*N{{K: "fn", S: name, Ps: []string{"a"}, Ss: [][]*N{body}}}})
+	nclo := 0
+	steps := g.n(3, 7, "factorysteps")
+	for i := 0; i < steps; i++ {
+		if nclo == 0 || (nclo < 3 && g.chance(45)) {
+			nclo++
+			out = append(out, &N{K: "let", Ps: []string{fmt.Sprintf("%sc%d", name, nclo)}, Ns: []*N{{K: "call", S: name, Ns: []*N{g.val()}}}})
+			continue
+		}
+		which := g.n(1, nclo, "whichclosure")
+		out = append(out, &N{K: "expr", Ns: []*N{P1(g.id(), &N{K: "call", S: fmt.Sprintf("%sc%d", name, which), Ns: []*N{Int(int64(g.n(0, 3, "delta")))}})}})
+	}
+	g.feat("closure_factory")
+	return out
 }
